@@ -79,7 +79,7 @@ def eigContract {N : Nat} (κ : Mat N N Fix) (nb : Nb N) (d : Nat) (rsk : Fix)
       let σ := (hi_ + lo_) / (2 : Nat)
       -- eigenvalues of C above σ = eigenvalues of −C below −σ: at most the returned count (sound direction)
       let negC := C.map fun r => r.map fun x => (0 : Fix) - x
-      match (if k ≤ 20 then countBelow k negC none ((0 : Fix) - σ) (tolPow 16 * cs)
+      match (if k ≤ 12 then countBelow k negC none ((0 : Fix) - σ) (tolPow 16 * cs)
              else countBelowFast k negC ((0 : Fix) - σ) (tolPow 16 * cs)) with
       | none => return .bad s!"inertia-singular sample {i}"
       | some c => if c ≠ d then return .bad s!"eigvecs-not-top-d sample {i}: {c} eigenvalues above the gap"
@@ -96,7 +96,7 @@ structure Common (N : Nat) where
 def parse3 (s : String) : Option (Array (Array Fix)) := parseRows parseFix s
 
 def runModelLle {N : Nat} (hN : 0 < N) (fs : List (String × String)) (κ : Mat N N Fix) (nb : Nb N) :
-    E (Array (Array Fix) × Nat × Fix) := do
+    E (Array (Array Fix) × Nat × Fix × Option String) := do
   let shift ← needFix fs "shift"
   let tshift ← needFix fs "tshift"
   let wraw ← needSamples fs "wraw" N (parseVecA parseFix)
@@ -108,10 +108,26 @@ def runModelLle {N : Nat} (hN : 0 < N) (fs : List (String × String)) (κ : Mat 
   let w : Fin N → Vec nb.k Fix := fun i => vecOf (wraw[i.1]!) nb.k
   let M := lleMD nb.f w shift
   let ts := lleTriplets nb.f w shift
-  pure (M.data, distinctPositions ts, tripletScale ts)
+  pure (M.data, distinctPositions ts, tripletScale ts, none)
 
+/-- the Hessian-estimator basis of the PROPERTY, written by hand — no generated index expression enters:
+    `[1 | u_1 … u_d | u_a ∘ u_b for 1 ≤ a ≤ b ≤ d]` (the span, hence `H Hᵀ`, does not depend on the order of the products) -/
+def hlleRefCols {k d : Nat} (U : Mat k d Fix) : List (DVec k Fix) :=
+  ((DVec.ofFn fun _ => (1 : Fix)) :: (List.finRange d).map fun c => DVec.ofFn fun a => U a c)
+    ++ (List.finRange d).flatMap fun a =>
+        ((List.finRange d).filter fun b => decide (a ≤ b)).map fun b => DVec.ofFn fun r => U r a * U r b
+
+/-- reference local Hessian projector: Gram–Schmidt of the hand-written basis, column-sum step, last d(d+1)/2 columns -/
+def hlleRefProjD {k d : Nat} (thr : Fix) (U : Mat k d Fix) : DMat k k Fix :=
+  let q := gramSchmidt Fix.sqrt [] (hlleRefCols U)
+  let H := (q.drop (1 + d)).map (colsumNorm thr)
+  DMat.ofFn fun a b => (H.map fun h => h.get a * h.get b).sum
+
+/-- `(M, stored entries, summand scale, note)`: for HLLE `M` is the REFERENCE matrix (hand-written basis); `note` is set
+    when the model built from the generated index expressions differs from it (the generated expressions do not describe
+    the property's estimator: the tie through `Gen/HlleIndex.lean` is broken) -/
 def runModelEig {N : Nat} (hN : 0 < N) (fs : List (String × String)) (κ : Mat N N Fix) (nb : Nb N) (hlle : Bool) :
-    E (Array (Array Fix) × Nat × Fix) := do
+    E (Array (Array Fix) × Nat × Fix × Option String) := do
   let d ← needNat fs "d"
   if hlle then
     match hlleIndexErr d with
@@ -130,16 +146,22 @@ def runModelEig {N : Nat} (hN : 0 < N) (fs : List (String × String)) (κ : Mat 
   if hlle then
     if nb.k < hlleCols d then throw s!"SKIP:k<{hlleCols d} (below the method's minimum)"
     let thr : Fix := (1 : Fix) / (10000 : Nat)
+    -- conditioning is judged on the hand-written basis (independent of the generated indices)
     for i in List.finRange N do
-      if gsMinRatio (hlleYi0 (Uf i)) < tolPow 32 then
+      if gsMinRatio (hlleRefCols (Uf i)) < tolPow 32 then
         throw s!"SKIP:ill-conditioned-hessian-basis sample {i.1}"
-    let ts := hlleTriplets nb.f Fix.sqrt thr Uf
+    let tsRef : List (Triplet N N Fix) := overFin N fun i => hlleTripletsAt (nb.f i) (hlleRefProjD thr (Uf i)).get
+    let Mref := fromTripletsD tsRef
+    let sc := tripletScale tsRef
     match hlleMD nb.f Fix.sqrt thr Uf with
     | .error _ => throw "MODEL-ERR:index"
-    | .ok M => pure (M.data, distinctPositions ts, tripletScale ts)
+    | .ok M =>
+      let cg := cmpArr (tolPow 40) M.data Mref.data sc
+      let note := if cg.ok then none else some s!"generated-index-model-differs-from-reference dev={relDev cg} at=({cg.at_.1},{cg.at_.2})"
+      pure (Mref.data, distinctPositions tsRef, sc, note)
   else
     let shift ← needFix fs "shift"
     let M := ltsaMD nb.f rsk Uf shift
     let ts := ltsaTriplets nb.f rsk Uf shift
-    pure (M.data, distinctPositions ts, tripletScale ts)
+    pure (M.data, distinctPositions ts, tripletScale ts, none)
 
